@@ -36,7 +36,7 @@ class Hist:
         self.ops.append(line)
         self.exp.append(e)
         self.ctx.count("op:" + line.split()[0])
-        if e is not None and e[:2] in ("9 ", "11", "8 ", "5 ", "6 ", "10"):
+        if e is not None and e.split()[0] in ("9", "11", "8", "5", "6", "10", "7"):
             self.ctx.count("ret:" + e.split()[0] + ":" + line.split()[0])
         return e
 
@@ -467,6 +467,14 @@ def h_finfo(ctx, rng, fe, thorough):
     # memory limit
     line = "finfo 4 %d %d 0 %s" % (rng.choice([0, 407, 408, 500, 8696, 8992, 9000, 20000]), rng.choice([1, 50, len(data)]), hx)
     h.do(line)
+    # Stream Padding that is not a multiple of four between two Streams although the file size is (DATA_ERROR)
+    if len(ix) >= 2 and rng.random() < 0.5:
+        a, b = rng.choice([(1, 3), (2, 2), (3, 1), (6, 2), (2, 6), (5, 7)])
+        ix2 = [x.copy() for x in ix]
+        ix2[-1].padding, ix2[-2].padding = a, b
+        bad = R.build_file(ix2, rng)
+        for ch in (len(bad) + 1, rng.choice([1, 3, 17, 4096])):
+            h.do("finfo 5 %d %d 0 %s" % (1 << 40, ch, R.hexs(bad)))
     # malformed variants of the same file: the Lean model predicts them, the reference only checks the sanity conditions
     for _ in range(rng.randrange(1, 5)):
         bad = bytearray(data)
